@@ -197,3 +197,13 @@ loop('PartHandler._pass_part_downstream', 1, 'for dwn in self.get_sorted_downstr
                'self._part is at_loop_entry(self._part) and g_taken == -1',
       'cycle_time_valid': 'self._cycle_time >= 0'},
      modifies=['self._waiting_for_downstream_space', 'self._cycle_time', 'self._next_cycle_time_offset', '$trace'], index='k')
+
+# --------------------------------------------------------------------------- registration of receive-part callbacks (C06, C15)
+# the loop of _on_received_new_part invokes them in list order: registration must append at the back and keep the others
+contract('PartHandler.add_receive_part_callback', props=['C06', 'C15'], for_cls=['PartHandler'], args={'callback': 'clo'},
+         raises={'TypeError': ('callback is None', {})},
+         ensures={'registered_last': 'len(self._received_part_callbacks) == old(len(self._received_part_callbacks)) + 1 and '
+                                     'self._received_part_callbacks[-1] == callback and '
+                                     'all(self._received_part_callbacks[j] == old(self._received_part_callbacks[j]) '
+                                     '    for j in range(old(len(self._received_part_callbacks))))'},
+         modifies=['self._received_part_callbacks[]'])
